@@ -270,6 +270,14 @@ func TestVerif_C02_h1body(t *testing.T) {
 			kind = 1
 		}
 		var framing, wire string
+		trailerStart := 0
+		tlenOf := func(ts []c02Field) int {
+			n := 2
+			for _, tr := range ts {
+				n += len(tr.k) + len(tr.v) + 4
+			}
+			return n
+		}
 		var trailers []c02Field
 		hdr := http.Header{}
 		switch kind {
@@ -289,6 +297,7 @@ func TestVerif_C02_h1body(t *testing.T) {
 				hdr.Set("Trailer", strings.Join(ks, ", "))
 			}
 			wire = c02EncodeChunked(s, c02ChunkBody(s, bodyStr), trailers, r.Intn(3) == 0)
+			trailerStart = len(wire) - tlenOf(trailers) - 2 // keep the CRLF of the last-chunk line intact too
 		default:
 			framing = "close"
 			wire = bodyStr
@@ -311,10 +320,17 @@ func TestVerif_C02_h1body(t *testing.T) {
 				fin = "reset"
 			}
 		case 1:
-			if kind == 1 && len(wire) > 0 { // corrupt one framing byte
-				i := r.Intn(len(wire))
+			if kind == 1 && len(wire) > 0 { // corrupt one byte of the chunk framing / data
+				// (not of the trailer section: lenient MIME parsing of malformed field
+				// lines is C04's subject, as is the empty chunk-size line of DESIGN §5 row 14)
+				i := r.Intn(trailerStart)
 				b := []byte(wire)
-				b[i] = verifh.Pick(r, []byte{'x', '\n', '\r', ';', 'g', ' ', '0'})
+				nb := verifh.Pick(r, []byte{'x', '\n', '\r', ';', 'g', ' ', '0'})
+				isHex := strings.IndexByte("0123456789abcdefABCDEF", b[i]) >= 0
+				if isHex && (nb == '\n' || nb == '\r' || nb == ';' || nb == ' ') {
+					nb = 'x'
+				}
+				b[i] = nb
 				wire = string(b)
 				mut = "corrupt"
 			}
@@ -340,10 +356,7 @@ func TestVerif_C02_h1body(t *testing.T) {
 			maxReads = r.Intn(6) // the caller stops early
 		}
 		var reads []int
-		tlen := 2
-		for _, tr := range trailers {
-			tlen += len(tr.k) + len(tr.v) + 4
-		}
+		tlen := tlenOf(trailers)
 		var line string
 
 		var impl string
